@@ -139,13 +139,6 @@ func (e *c13HEnv) run(c c13HCase) (key, what, outcome string) {
 	return "", "", "accepted/handover-ok"
 }
 
-func c13Min(a, b int) int {
-	if a < b {
-		return a
-	}
-	return b
-}
-
 // c13Premise checks, in the source tree this binary was built from, that the three block-sync reactors decide
 // with Validators.VerifyCommitLight and nothing else. This part offers commits to that function directly; if a
 // reactor has been changed to ask more, "accepted by block sync" is no longer what this part computes and its
@@ -234,7 +227,7 @@ func TestVerifC13Handover(t *testing.T) {
 						confirmed[key] = true
 					}
 					r.Violation(key, what, c)
-					out += ":" + key[len(key)-c13Min(len(key), 28):]
+					out += ":" + key[strings.LastIndex(key, ":")+1:]
 				}
 				r.Outcome(out)
 				if k%3001 == 7 {
